@@ -523,8 +523,16 @@ struct Pending { id: String, stage: String, head: String, cont_bc: Option<Result
 
 #[allow(clippy::too_many_arguments)]
 fn pipeline_validate(
-    id: &str, mut ctx: Context<'static>, exp: ExperimentalFeatures, passes: &[&'static str], bc: Option<(&sway_core::BuildConfig, &'static sway_core::Engines)>,
+    id: &str, ctx: Context<'static>, exp: ExperimentalFeatures, passes: &[&'static str], bc: Option<(&sway_core::BuildConfig, &'static sway_core::Engines)>,
     r: &mut Rng, cont_prob: (u64, u64), kind: &str, out: &mut dyn Write, dump: Option<&std::path::Path>,
+) -> usize {
+    pipeline_validate_rounds(id, ctx, exp, passes, bc, r, cont_prob, kind, out, dump, 2)
+}
+
+#[allow(clippy::too_many_arguments)]
+fn pipeline_validate_rounds(
+    id: &str, mut ctx: Context<'static>, exp: ExperimentalFeatures, passes: &[&'static str], bc: Option<(&sway_core::BuildConfig, &'static sway_core::Engines)>,
+    r: &mut Rng, cont_prob: (u64, u64), kind: &str, out: &mut dyn Write, dump: Option<&std::path::Path>, rounds: usize,
 ) -> usize {
     ctx.verify_ssa_dominance = true;
     let mut pend: Vec<Pending> = vec![];
@@ -551,7 +559,7 @@ fn pipeline_validate(
     // staged pipeline (same control flow as PassManager::run)
     let mut st = Stager::new();
     let mut outcome = PassOutcome::Ok { modified: false };
-    'rounds: for round in 0..2 {
+    'rounds: for round in 0..rounds {
         let mut iter_mod = false;
         for (i, p) in passes.iter().enumerate() {
             match st.run_pass(&mut ctx, p) {
@@ -607,12 +615,18 @@ fn run_modules(a: &Args, r: &mut Rng, out: &mut dyn Write) -> usize {
         for l in std::fs::read_to_string(c).unwrap_or_default().lines() {
             let f: Vec<&str> = l.split_whitespace().collect();
             if f.len() >= 2 && f[0] == "irfile" {
-                let p = std::path::Path::new("/verif").join(f[1]);
+                // irfile <path (relative to /verif, or absolute)> [old] [o1 | passes=a,b,c]
+                let p = if f[1].starts_with('/') { std::path::PathBuf::from(f[1]) } else { std::path::Path::new("/verif").join(f[1]) };
                 let Ok(text) = std::fs::read_to_string(&p) else { continue };
-                let exp = if f.get(2) == Some(&"old") { old_encoding() } else { ExperimentalFeatures::default() };
+                let exp = if f.contains(&"old") { old_encoding() } else { ExperimentalFeatures::default() };
+                let all = all_transform_passes();
+                let passes: Vec<&'static str> = if f.contains(&"o1") { pipeline(OptLevel::Opt1) } else {
+                    f.iter().find_map(|t| t.strip_prefix("passes=")).map(|l| l.split(',').filter_map(|n| all.iter().find(|a| **a == n).copied()).collect()).unwrap_or_default()
+                };
+                let id = format!("corpus:{}", f[1].rsplit('/').next().unwrap_or(f[1]));
                 match guarded(|| sway_ir::parser::parse(&text, se, exp, Default::default())) {
-                    Some(Ok(ctx)) => lines += pipeline_validate(&format!("corpus:{}", f[1]), ctx, exp, &[], None, r, (0, 1), "corpus", out, dump),
-                    _ => { writeln!(out, "skip corpus:{} ;; unparsable", f[1]).unwrap(); lines += 1; }
+                    Some(Ok(ctx)) => lines += pipeline_validate_rounds(&id, ctx, exp, &passes, None, r, (0, 1), "corpus", out, dump, 1),
+                    _ => { writeln!(out, "skip {id} ;; unparsable").unwrap(); lines += 1; }
                 }
             }
         }
